@@ -18,7 +18,7 @@ for pid in ids:
         'engine': 'lean4-model+correspondence',
         'level_claimed': {'category': 'proof', 'text': c['text'], 'design_ref': f'DESIGN.md section 8, {pid}'},
         'level_note': c['note'],
-        'technique': c.get('technique', 'Lean 4 theorems about an executable model of the code; model tied to /repo by generated tables and a differential correspondence check; property oracle on the implementation for failing-input search'),
+        'technique': c.get('technique', 'Lean 4 theorems about an executable model of the code; model tied to /repo by tables and decision functions translated from the source on every run (kernel-checked equality with the hand-written model) and by a differential correspondence check; property oracle on the implementation for failing-input search'),
     })
 na = [{'property_id': pid, 'reason': CLAIMS.get('_na', {}).get(pid, 'no theorem is registered for this property yet; it is not claimed (see DESIGN.md section 8)')} for pid in ids if pid not in CLAIMS]
 m = {
@@ -30,7 +30,7 @@ m = {
                  'kind_free_text': 'Lean 4.33 library AY (model, specs, theorems), compiled line-protocol driver ayd, Python harness running /repo in-process'}],
     'checks': checks,
     'not_applicable': na,
-    'notes': 'Every check regenerates lean/AY/Gen/Tables.lean from /repo, rebuilds the Lean library, audits the axioms of the registered theorems, then runs the correspondence and the property oracle. KNOWN_FINDINGS lists recorded defects; fix: commits in /repo repair the others (DESIGN.md section 7).',
+    'notes': 'Every check regenerates lean/AY/Gen/Tables.lean and lean/AY/Gen/Translated.lean from /repo, rebuilds the Lean library, audits the axioms of the registered theorems, then runs the correspondence and the property oracle. KNOWN_FINDINGS lists recorded defects; fix: commits in /repo repair the others (DESIGN.md section 7).',
 }
 json.dump(m, open(os.path.join(V, 'MANIFEST.json'), 'w'), indent=1)
 print('claimed:', [c['property_id'] for c in checks], 'not claimed:', [n['property_id'] for n in na])
